@@ -2034,6 +2034,8 @@ class Recipe:
             A new Container so that it may be used in later recipe steps.
         """
 
+        if self.locked:
+            raise RuntimeError("This recipe is locked.")
         if not isinstance(solvent, (Substance, Container)):
             raise TypeError("Solvent must be a Substance or a Container.")
         if name is not None and not isinstance(name, str):
@@ -2092,6 +2094,8 @@ class Recipe:
             A new Container so that it may be used in later recipe steps.
         """
 
+        if self.locked:
+            raise RuntimeError("This recipe is locked.")
         if not isinstance(source, Container):
             raise TypeError("Source must be a Container.")
         if not isinstance(solute, Substance):
@@ -2132,6 +2136,8 @@ class Recipe:
             what: What to remove. Can be a type of substance or a specific substance. Defaults to LIQUID.
         """
 
+        if self.locked:
+            raise RuntimeError("This recipe is locked.")
         if isinstance(destination, PlateSlicer):
             if destination.plate.name not in self.results:
                 raise ValueError(f"Destination {destination.plate.name} has not been previously declared for use.")
@@ -2156,6 +2162,8 @@ class Recipe:
             new_name: Optional name for new container.
         """
 
+        if self.locked:
+            raise RuntimeError("This recipe is locked.")
         if not isinstance(solute, Substance):
             raise TypeError("Solute must be a Substance.")
         if not isinstance(concentration, str):
@@ -2191,6 +2199,8 @@ class Recipe:
             quantity: Desired final quantity in container.
 
         """
+        if self.locked:
+            raise RuntimeError("This recipe is locked.")
         if isinstance(destination, PlateSlicer):
             if destination.plate.name not in self.results:
                 raise ValueError(f"Destination {destination.plate.name} has not been previously declared for use.")
